@@ -90,7 +90,7 @@ def check_initial(item, acc):
         return run_sampler(ch, N, dict(burn_in_steps=burn, intermediate_steps=inter, seed=5), {}, n_samples, initial=(labels, edges))
 
     try:
-        for script, res, ch, pruned in CH.explore(run):
+        for script, res, ch, pruned in acc.explore(run):
             acc.evaluations += 1
             outs, sp, fac = res
             ws = dict(wit, script=list(script))
@@ -136,7 +136,7 @@ def check_sequences(item, acc):
         return run_sampler(ch, N, dict(burn_in_steps=burn, intermediate_steps=inter, seed=5), dict(deg_seq=np.array(deg_seq, dtype=float), dim_seq=dict(dim_seq)), 1)
 
     try:
-        for script, res, ch, pruned in CH.explore(run, horizon=80):
+        for script, res, ch, pruned in acc.explore(run, horizon=80):
             acc.evaluations += 1
             if pruned:
                 acc.count("pruned-horizon")
@@ -196,7 +196,7 @@ def check_model(item, acc):
 
     seen = set()
     try:
-        for script, res, ch, pruned in CH.explore(run, horizon=60, max_dev=2):
+        for script, res, ch, pruned in acc.explore(run, horizon=60, max_dev=2):
             acc.evaluations += 1
             if pruned:
                 acc.count("pruned-horizon")
@@ -269,7 +269,7 @@ def items(tier):
         step_cfgs = [(0, 0, 1), (1, 0, 1), (0, 1, 1), (1, 1, 1), (0, 1, 2), (1, 2, 1), (0, 2, 2)]
     for es in inits:
         for burn, inter, ns in step_cfgs:
-            if tier == "quick" and ((len(es) == 3 and burn + inter * ns > 1) or (ns == 2 and es not in inits[::5])):
+            if tier == "quick" and ((len(es) == 3 and burn + inter * ns > 1) or (ns == 2 and (es not in inits[::5] or not set(es[0]) & set(es[1])))):
                 continue
             yield ("init", (labels, es, burn, inter, ns, 4))
     yield ("init", (("a", "b", "c", "d", "e"), (("a", "b"), ("c", "d", "e")), 1, 1, 1, 5))
@@ -288,6 +288,8 @@ def items(tier):
                     yield ("seq", (deg, dim, 0, 0, 4))
                     continue
                 for burn, inter in ((0, 0), (0, 1)) if tier == "quick" else ((0, 0), (0, 1), (1, 1)):
+                    if tier == "quick" and inter and n2 + n3 == 3 and deg == (2, 2, 2, 2):
+                        continue  # 3e4 executions: thorough tier only
                     yield ("seq", (deg, dim, burn, inter, 4))
     for N in (4, 5):
         for exact in (True, False):
@@ -310,7 +312,7 @@ def run(ctx):
     its = list(items(ctx.tier))
     k = ctx.jobs * 8
     shards = [its[i::k] for i in range(k)]
-    ev, nt, oc = run_e4(ctx, [it for s in shards for it in s], worker, nchunks=k)
+    ev, nt, oc = run_e4(ctx, [it for s in shards for it in s], worker, nchunks=k, budget=8000000 if ctx.tier == "quick" else 160000000, config_cap=20000 if ctx.tier == "quick" else 400000)
     kinds = Counter(kd for kd, _ in its)
     ctx.part("inputs", executions=ev, **dict(kinds))
     if not ctx.violations:
@@ -325,7 +327,8 @@ def run(ctx):
     ctx.sample({"sequences": {"deg_seq": list(it[0]), "dim_seq": dict(it[1]), "burn_in": it[2], "intermediate": it[3]}})
     cov = {
         "seam_validation": seam_report,
-        "states": len(oc), "transitions": ev, "traces_validated_against_impl": ev, "evaluations": ev, "distinct_nontrivial": len(nt), "exhaustive": True,
+        "states": len(oc), "transitions": ev, "traces_validated_against_impl": ev, "evaluations": ev, "distinct_nontrivial": len(nt), "exhaustive": not (ctx.counts.get("configurations-capped-by-budget", 0) or ctx.counts.get("configurations-skipped-budget-exhausted", 0)),
+        "configurations_capped_or_skipped_by_execution_budget": ctx.counts.get("configurations-capped-by-budget", 0) + ctx.counts.get("configurations-skipped-budget-exhausted", 0),
         "pruned_at_horizon": ctx.counts.get("pruned-horizon", 0),
         "rule": "through the public generator HyMMSBMSampler(...).sample(...): every ordered pair draw, every reshuffle subset, both outcomes of the MH accept "
                 "coin unless forced, quantile vectors of the truncated Poisson from a 4-element menu; initial hypergraphs = hypergraphs with 2-3 hyperedges of "
